@@ -22,14 +22,17 @@ CONSTANTS Names,        \* {"device", "attestation", "ui", "signer"}
           MaxTargets,   \* length of the target list
           MaxCorr,      \* corruption budget
           CorrKinds,    \* enabled corruption kinds
-          TweakChoice   \* subset of {"plain", "tweaked"}: how an element may be honestly signed
+          TweakChoice,  \* subset of {"plain", "tweaked"}: how an element may be honestly signed
+          Shapes,       \* enabled non-canonical message shapes (see KeyOfShape)
+          MaxShape,     \* how many elements may have a non-canonical message shape
+          ShapeWithCorr \* may the SAME element have a non-canonical shape and a corrupted link
 
 Ghost  == "ghost"        \* a name that is never an element
 Absent == "absent"
 
-VARIABLES targets, by, link, rootkey, used, swap,                  \* Env
+VARIABLES targets, by, link, rootkey, used, swap, shape,           \* Env
           phase, sub, ti, cur, visited, chain, certifier, result, steps   \* Sys
-envv == <<targets, by, link, rootkey, used, swap>>
+envv == <<targets, by, link, rootkey, used, swap, shape>>
 sysv == <<phase, sub, ti, cur, visited, chain, certifier, result, steps>>
 vars == <<envv, sysv>>
 
@@ -38,6 +41,29 @@ M(n) == "m_" \o n
 T(n) == "t_" \o n
 SignerKey(s) == IF s = Root THEN "k_root" ELSE K(s)
 
+(***************************************************************************)
+(* Message shape: WHAT the honestly signed message of an element carries.  *)
+(* The value of an element is the part of its message that the format      *)
+(* defines (device: the last 65 bytes; attestation: all but the first      *)
+(* byte; ui, signer: everything), and the element certifies with the key   *)
+(* that its WHOLE value is - nothing is stripped, sliced or searched:      *)
+(*   canon     value = the 65-byte (uncompressed) key                      *)
+(*   comp      value = the 33-byte compressed key (accepted as it is)      *)
+(*   longTail  extra bytes, then the key: value longer than a key, key at  *)
+(*             its tail.  Only for a device this IS the key (last 65)      *)
+(*   longHead  the key, then extra bytes                                   *)
+(*   short     a truncated key / coordinates without the format byte       *)
+(*   sliced    padding, key, padding                                       *)
+(* In every shape the element's children are signed by the element's real  *)
+(* key K(n), and the element itself is correctly signed by its certifier.  *)
+(***************************************************************************)
+KeyOfShape(n, sh) == IF sh \in {"canon", "comp"} \/ (n = "device" /\ sh = "longTail") THEN K(n) ELSE "k_bad"
+
+\* decided when the element's key is first read, i.e. when something it certifies is checked; the shape
+\* of an element that certifies nothing that is checked stays open (any shape will do)
+ShapeOf(n) == IF n \in DOMAIN shape THEN shape[n] ELSE "canon"
+Shaped == Cardinality({n \in DOMAIN shape : shape[n] # "canon"})
+
 Honest(n) == [signer |-> by[n], tw |-> NoTweak, corr |-> "ok", partner |-> NoName]
 LinkOf(n) == IF n \in DOMAIN link THEN link[n] ELSE Honest(n)
 
@@ -45,7 +71,7 @@ LinkOf(n) == IF n \in DOMAIN link THEN link[n] ELSE Honest(n)
 Elem(n) ==
     LET l    == LinkOf(n)
         mx   == M(n) \o "_x"
-        base == [by |-> by[n], key |-> K(n), msg |-> M(n), val |-> M(n),
+        base == [by |-> by[n], key |-> KeyOfShape(n, ShapeOf(n)), msg |-> M(n), val |-> M(n),
                  sig |-> [by |-> <<SignerKey(l.signer), l.tw>>, over |-> M(n)], tweak |-> l.tw]
     IN CASE l.corr = "sigOtherKey"  -> [base EXCEPT !.sig = [by |-> <<"k_x", l.tw>>, over |-> M(n)]]
          [] l.corr = "sigFlip"      -> [base EXCEPT !.sig = [by |-> <<"k_none", NoTweak>>, over |-> "m_none"]]
@@ -67,7 +93,7 @@ RK   == IF rootkey = "?" THEN "k_root" ELSE rootkey
 TargetSeqs == UNION {[1..k -> Names \cup {Ghost}] : k \in 0..MaxTargets}
 
 Init == /\ targets \in TargetSeqs
-        /\ by = (Ghost :> Absent) /\ link = <<>> /\ rootkey = "?" /\ used = 0 /\ swap = <<>>
+        /\ by = (Ghost :> Absent) /\ link = <<>> /\ rootkey = "?" /\ used = 0 /\ swap = <<>> /\ shape = <<>>
         /\ phase = "parse" /\ sub = "enter" /\ ti = 1 /\ cur = NoName /\ visited = {}
         /\ chain = <<>> /\ certifier = Root /\ result = <<>> /\ steps = 0
 
@@ -82,7 +108,7 @@ DecideBy == /\ NeedBy # NoName /\ NeedBy \notin DOMAIN by
             /\ \E p \in Names \cup {Root, Ghost, Absent} :
                  /\ (p = Absent) => ~(swap # <<>> /\ swap[2] = NeedBy)
                  /\ by' = (NeedBy :> p) @@ by
-            /\ UNCHANGED <<targets, link, rootkey, used, swap, sysv>>
+            /\ UNCHANGED <<targets, link, rootkey, used, swap, shape, sysv>>
 
 NeedLink == IF phase = "validate" /\ sub = "check" THEN cur ELSE NoName
 
@@ -94,37 +120,57 @@ LocalKinds(n, tw) ==
      \cup (IF n \in {"device", "attestation"} THEN {"msgFlipOther"} ELSE {})
      \cup (IF tw # NoTweak THEN {"tweakFlip", "tweakRemove"} ELSE {"tweakAdd"})) \cap CorrKinds
 
+\* with no non-canonical shape enabled there is nothing to decide (every message is canonical)
+ShapesOn   == MaxShape > 0 /\ Shapes # {}
+ShapeKnown == (ShapesOn /\ certifier # Root) => certifier \in DOMAIN shape
+
 DecideLink ==
     /\ NeedLink # NoName /\ NeedLink \notin DOMAIN link
-    /\ LET n == NeedLink IN
+    \* (fixed order of independent decisions: the certifier's side - root key or shape - first)
+    /\ (certifier = Root => rootkey # "?") /\ ShapeKnown
+    /\ LET n == NeedLink
+           L(s, tw, c, m) == (n :> [signer |-> s, tw |-> tw, corr |-> c, partner |-> m]) @@ link
+       IN
        \E tw \in TwOf(n) :
          IF swap # <<>> /\ swap[2] = n
-         THEN /\ link' = (n :> [signer |-> by[n], tw |-> tw, corr |-> "swapped", partner |-> swap[1]]) @@ link
+         THEN /\ link' = L(by[n], tw, "swapped", swap[1])
               /\ UNCHANGED <<used, swap>>
-         ELSE \/ /\ link' = (n :> [signer |-> by[n], tw |-> tw, corr |-> "ok", partner |-> NoName]) @@ link
+         ELSE \/ /\ link' = L(by[n], tw, "ok", NoName)
                  /\ UNCHANGED <<used, swap>>
               \/ /\ used < MaxCorr
-                 /\ \E k \in LocalKinds(n, tw) :
-                      link' = (n :> [signer |-> by[n], tw |-> tw, corr |-> k, partner |-> NoName]) @@ link
+                 /\ \E k \in LocalKinds(n, tw) : link' = L(by[n], tw, k, NoName)
                  /\ used' = used + 1 /\ UNCHANGED swap
               \/ /\ used < MaxCorr /\ "reparent" \in CorrKinds
-                 /\ \E s \in (Names \cup {Root}) \ {by[n]} :
-                      link' = (n :> [signer |-> s, tw |-> tw, corr |-> "reparent", partner |-> NoName]) @@ link
+                 /\ \E s \in (Names \cup {Root}) \ {by[n]} : link' = L(s, tw, "reparent", NoName)
                  /\ used' = used + 1 /\ UNCHANGED swap
               \/ /\ used < MaxCorr /\ "sigSwap" \in CorrKinds /\ swap = <<>>
                  /\ \E m \in Names \ {n} :
                       /\ m \notin DOMAIN link
                       /\ (m \in DOMAIN by => by[m] # Absent)
-                      /\ link' = (n :> [signer |-> by[n], tw |-> tw, corr |-> "sigSwap", partner |-> m]) @@ link
+                      /\ link' = L(by[n], tw, "sigSwap", m)
                       /\ swap' = <<n, m>>
                  /\ used' = used + 1
-    /\ UNCHANGED <<targets, by, rootkey, sysv>>
+    /\ UNCHANGED <<targets, by, rootkey, shape, sysv>>
+
+\* the message shape of an element, decided when the element is first used as a certifier (it has been
+\* checked itself by then).  Corruptions of the message are only combined with the canonical shape;
+\* with ShapeWithCorr = FALSE neither are the other corruptions
+NeedShape == IF phase = "validate" /\ sub = "check" /\ certifier # Root THEN certifier ELSE NoName
+DecideShape ==
+    /\ ShapesOn /\ NeedShape # NoName /\ NeedShape \notin DOMAIN shape
+    /\ LET n == NeedShape
+           c == LinkOf(n).corr
+           free == /\ Shaped < MaxShape
+                   /\ c \notin {"msgFlipKey", "msgFlipOther", "keySubst"}
+                   /\ (ShapeWithCorr \/ c \in {"ok", "swapped"})
+       IN \E sh \in {"canon"} \cup (IF free THEN Shapes ELSE {}) : shape' = (n :> sh) @@ shape
+    /\ UNCHANGED <<targets, by, link, rootkey, used, swap, sysv>>
 
 DecideRoot == /\ phase = "validate" /\ sub = "check" /\ certifier = Root /\ rootkey = "?"
               /\ \/ rootkey' = "k_root" /\ UNCHANGED used
                  \/ /\ used < MaxCorr /\ "wrongRoot" \in CorrKinds
                     /\ rootkey' = "k_x" /\ used' = used + 1
-              /\ UNCHANGED <<targets, by, link, swap, sysv>>
+              /\ UNCHANGED <<targets, by, link, swap, shape, sysv>>
 
 (***************************************************************************)
 (* Sys: _parse                                                             *)
@@ -167,6 +213,7 @@ CertifierKeyNow == IF certifier = Root THEN rootkey ELSE Elem(certifier).key
 
 VCheck == /\ phase = "validate" /\ sub = "check"
           /\ cur \in DOMAIN link /\ (certifier = Root => rootkey # "?")
+          /\ ShapeKnown
           /\ LET t == targets[ti]
                  e == Elem(cur) IN
              IF ~ElemValid(e, CertifierKeyNow)
@@ -180,7 +227,7 @@ VCheck == /\ phase = "validate" /\ sub = "check"
                   /\ UNCHANGED <<result, ti, sub>>
           /\ Tick /\ UNCHANGED <<envv, phase, visited>>
 
-EnvNext == DecideBy \/ DecideLink \/ DecideRoot
+EnvNext == DecideBy \/ DecideLink \/ DecideRoot \/ DecideShape
 SysNext == PEnter \/ PStep \/ VEnter \/ VBuild \/ VCheck
 Next == EnvNext \/ SysNext
 Spec == Init /\ [][Next]_vars
@@ -201,11 +248,14 @@ LoadIffWellFormed == /\ phase = "error" => ~WellFormed(Cert, targets)
 \* a verdict, once given, is never changed by anything decided or computed later
 Stable == [][\A x \in DOMAIN result : x \in DOMAIN result' /\ result'[x] = result[x]]_vars
 Bounded == steps <= Len(targets) * (3 * Cardinality(Names) + 3) + 2
-BudgetOk == used <= MaxCorr
+BudgetOk == used <= MaxCorr /\ Shaped <= MaxShape
 Terminates == <>Done
 
 \* vacuity guards (negative configuration: each must be VIOLATED)
 NeverValid   == \A x \in DOMAIN result : ~result[x].valid
 NeverInvalidBelowTop == \A x \in DOMAIN result : result[x].valid \/ Cert[result[x].name].by = Root
 NeverError   == phase # "error"
+\* a child of an element whose value is longer than a key is refused although everything is well signed
+NeverRefusedForShape == ~(\E x \in DOMAIN result : /\ ~result[x].valid /\ used = 0 /\ rootkey = "k_root"
+                                                     /\ LinkOf(result[x].name).corr = "ok")
 =============================================================================
